@@ -224,8 +224,9 @@ class SimOps:
         stems = np.zeros(self.c_locs_len, dtype='int32') - 1  # default to -1: 'no fanout line'
         if strip_forks:
             for f in circuit.forks.values():
+                if len(f.ins) == 0 or f.ins[0] is None: continue  # fork without driver, e.g. a primary input in bench-style circuits
                 prev_line = f.ins[0]
-                while prev_line.driver.kind == '__fork__':
+                while prev_line.driver.kind == '__fork__' and len(prev_line.driver.ins) > 0 and prev_line.driver.ins[0] is not None:
                     prev_line = prev_line.driver.ins[0]
                 stem_idx = prev_line.index
                 for ol in f.outs:
